@@ -40,13 +40,14 @@ pub fn check_bank_overlap(
                         true,
 
                     (Some(size1), None) =>
-                        outp1 + size1 > outp2,
+                        ends_after(outp1, size1, outp2),
 
                     (None, Some(size2)) =>
-                        outp2 + size2 > outp1,
+                        ends_after(outp2, size2, outp1),
 
                     (Some(size1), Some(size2)) =>
-                        outp1 + size1 > outp2 && outp2 + size2 > outp1,
+                        ends_after(outp1, size1, outp2) &&
+                        ends_after(outp2, size2, outp1),
                 }
             };
 
@@ -322,6 +323,20 @@ fn check_bank_usage(
 }
 
 
+/// Whether the window of `size` bits at `outp` ends after `other`,
+/// also when its end is not representable.
+fn ends_after(
+    outp: usize,
+    size: usize,
+    other: usize)
+    -> bool
+{
+    outp
+        .checked_add(size)
+        .map_or(true, |end| end > other)
+}
+
+
 fn check_bank_output(
     report: &mut diagn::Report,
     span: diagn::Span,
@@ -337,8 +352,9 @@ fn check_bank_output(
 
     if let Some(bank_size) = bankdef.size
     {
-        // FIXME: Addition can overflow
-        if ctx.bank_data.cur_position + size > bank_size
+        if ctx.bank_data.cur_position
+            .checked_add(size)
+            .map_or(true, |end| end > bank_size)
         {
             report.push_parent(
                 format!(
